@@ -10,7 +10,7 @@ typedef ARGT__ZN5gdstk7Polygon16apply_repetitionERNS_5ArrayIPS0_EE_1 PArr;
 #define NV 2
 #define RR 3
 int main(void) {
-  Poly poly; memset(&poly, 0, sizeof poly);
+  Poly poly = {0};
   int64_t vx[NV], vy[NV]; NUM* pts = malloc(sizeof(NUM) * 2 * NV);
   for (int i = 0; i < NV; i++) { vx[i] = nd_range(-RR, RR); vy[i] = nd_range(-RR, RR); pts[2 * i] = NUM_OF_INT(vx[i]); pts[2 * i + 1] = NUM_OF_INT(vy[i]); }
   uint64_t tag = nd_u64(); poly.f0 = tag; poly.f1.f0 = NV; poly.f1.f1 = NV; poly.f1.f2 = (void*)pts;
